@@ -307,13 +307,15 @@ def after_zero_iter_loop(prog) -> set:
 # ---- mechanism predicates (explicit, tight; one per root cause seen on the unchanged tree) ------
 def is_loop_output_not_reemitted(prog, res: R.RunResult) -> bool:
     """A job J outside a loop L but downstream of it needed recovery after L's data had been lost;
-    every recover(J) call returned normally, yet J never executed successfully afterwards, and the
-    executor returned normally with a missing or wrong workflow output.  (The recovery workflow
+    every recover(J) call returned normally, yet J - or a job between L and J whose output was lost
+    too - never executed successfully afterwards, and the executor returned normally with a missing
+    or wrong workflow output (e.g. a consumer run on an empty gathered list).  (The recovery workflow
     re-runs L's iterations but drops L's condition step, so L's output is never re-emitted.)"""
     if res.status != "ok":
         return False
     dl = downstream_of_loops(prog)
     bodies = loop_bodies(prog)
+    anc = R.ancestors(R.jobs_of(prog))
     for j, calls in res.recover_calls.items():
         if j not in dl or not calls or any(c["outcome"] != "ok" for c in calls):
             continue
@@ -324,9 +326,12 @@ def is_loop_output_not_reemitted(prog, res: R.RunResult) -> bool:
             t0 = min(lost_t)
             if not [c for c in calls if c["start"] > t0]:
                 continue
-            ok_after = [e for e in res.execs.get(j, ()) if e["outcome"] == "ok" and e["start"] > t0]
-            if not ok_after:
-                return True
+            chain = [j] + [a for a in anc.get(j, ()) if ln in dl.get(a, ())]
+            for x in chain:
+                lost_x = x == j or any(x in l["producers"] for l in res.losses)
+                ok_after = [e for e in res.execs.get(x, ()) if e["outcome"] == "ok" and e["start"] > t0]
+                if lost_x and not ok_after:
+                    return True
     return False
 
 
